@@ -232,7 +232,7 @@ func runC12(c *Ctx, r *Report, tier string) {
 	okIP := false
 	for _, b := range c.blocks(ip) {
 		if iff, ok := b.Instrs[len(b.Instrs)-1].(*ssa.If); ok {
-			if c.cond(iff.Cond).Term == "call:strconv.IsPrint(next(range(P0))#2)" {
+			if c.cond(iff.Cond).Term == "call:strconv.IsPrint(runeat(P0))" {
 				okIP = true
 			}
 		}
@@ -246,7 +246,7 @@ func runC12(c *Ctx, r *Report, tier string) {
 	falseRet := false
 	for _, ret := range returnsOf(ip) {
 		if c.term(ret.Results[0]) == "false" {
-			_, falseRet = c.Requires(ip, isInstr(ret), litIs("call:strconv.IsPrint(next(range(P0))#2)", false), nil)
+			_, falseRet = c.Requires(ip, isInstr(ret), litIs("call:strconv.IsPrint(runeat(P0))", false), nil)
 		}
 	}
 	r.Check(okIP && len(other) == 0 && falseRet, "QUOTE", ipn, "isPrint ⇔ every rune is strconv.IsPrint", c.pos(ip.Pos()), "the predicate Unquote-free reading relies on: what is printable per strconv is written raw", "isPrint tests "+strings.Join(other, ",")+" / is not the all-runes strconv.IsPrint test")
